@@ -80,27 +80,30 @@ def generate(rng, tier, shard, nshards):
                              site="transform/" + "|".join(pipe), feat=feat)
 
 
+def visible_string(G, sigma, maxlen, first=None):
+    """A terminal string that G visibly derives from its start symbol with non-zero weight (a rule S -> t1..tk)."""
+    for r in G["rules"]:
+        if r["h"] == G["S"] and 1 <= len(r["b"]) <= maxlen and all(y in sigma for y in r["b"]):
+            if first is None or r["b"][0] == first:
+                return r["b"]
+    return None
+
+
 def selftests(events, rng):
-    """A transformed grammar with one rule dropped / one weight changed must be rejected ('language');
-    a postcondition that the output visibly violates must be rejected too."""
+    """An output grammar that lost a visibly derivable string must be rejected ('language'); an output that
+    visibly violates a postcondition must be rejected too."""
     out = []
-    cands = [e for e in events if "exc" not in e and e["op"] == "transform" and e["out"]["rules"]]
+    cands = [e for e in events if "exc" not in e and e["op"] == "transform"
+             and visible_string(e["in"], e["sigma"], e["L"])]
     rng.shuffle(cands)
-    n = 0
-    for e in cands:
-        if n >= 10:
-            break
+    for e in cands[:10]:
         c = copy.deepcopy(e)
         c["expect"] = "reject"
-        # make the output grammar accept something the input does not: add S -> t t t t for a fresh weight
-        t = c["sigma"][0]
-        c["out"]["rules"].append({"w": c["out"]["rules"][0]["w"], "h": c["out"]["S"], "b": [t, t, t]})
+        c["out"]["rules"] = []
         c["posts"] = []
-        # only a valid self-test if the input does not already give ttt the same weight: force difference by
-        # also adding the rule twice in non-idempotent semirings; in Bool rely on inputs that reject ttt
-        if c["L"] >= 3:
-            out.append(c)
-            n += 1
+        out.append(c)
+    cands = [e for e in events if "exc" not in e and e["op"] == "transform" and e["out"]["rules"]]
+    rng.shuffle(cands)
     for e in cands[:6]:
         c = copy.deepcopy(e)
         c["expect"] = "reject"
